@@ -2311,7 +2311,10 @@ mixed_family(int thorough) {
         base[nbase].ops[i] = PUT(two[o][i], x >> i & 1);
       nbase++;
     }
-  int n2 = nbase;
+  base[nbase].n = 1; /* (a single creation over TCP: the record alone in the file) */
+  base[nbase].ops[0] = PUT(R_D1, 1);
+  nbase++;
+  int n2 = nbase; /* the short bases */
   static const int perm[6][3] = {{R_D1, R_D2, R_D3}, {R_D1, R_D3, R_D2}, {R_D2, R_D1, R_D3}, {R_D2, R_D3, R_D1}, {R_D3, R_D1, R_D2}, {R_D3, R_D2, R_D1}};
   for (int o = 0; o < 6; o++) { /* all orders of {d1 over TCP, d2 over UDP, d3 over UDP} */
     base[nbase].n = 3;
@@ -2578,9 +2581,9 @@ main(int argc, char **argv) {
              "TRANSPORTS: the server listens on UDP and TCP (same address); the histories above are all-UDP (the generator's renaming reduction "
              "d1<->d2, p1<->p2 is only sound without per-operation attributes, so nothing with a transport flag goes through it); the explicit family "
              "'mixed-transport' (%d histories in this tier, every name order written out) sends put / del / reg / cancel over UDP or over a raw RFC 8323 TCP "
-             "connection (peer t: connect, CSM exchange, one connection per server process): (a) 2 dynamic resources in both name orders x transports "
+             "connection (peer t: connect, CSM exchange, one connection per server process): (a) one dynamic resource over TCP, 2 dynamic resources in both name orders x transports "
              "{TCP-UDP, UDP-TCP, TCP-TCP}, all 6 orders of {d1 over TCP, d2 over UDP, d3 over UDP}%s, each followed by stop-or-kill and restart with "
-             "the kill points of the last creation and the kill points of the restart itself (thorough: 2-resource bases also a kill in both), by a "
+             "the kill points of the last creation and the kill points of the restart itself (thorough: 1- and 2-resource bases also a kill in both), by a "
              "deletion of the first created resource over either transport, and by a UDP observer registering on a TCP-created and on a UDP-created "
              "resource (both orders; directly, after stop+restart, after kill+restart%s; save_freq %s; quick: 3-resource bases in one order and without the stop+restart variant); (b) peer t observes next to UDP "
              "observers (reg / cancel / resource deletion over TCP rewrite the observe file that holds the UDP observers' records; t's connection ends "
